@@ -105,6 +105,119 @@ func removeFile(p *Program, k int) (*Program, bool) {
 	return q, true
 }
 
+// reroot returns the program made of file k and everything it (transitively) includes, k first; nil if k reaches file 0.
+func reroot(p *Program, k int) *Program {
+	order := []int{k}
+	idx := map[int]int{k: 0}
+	for i := 0; i < len(order); i++ {
+		for _, x := range p.Files[order[i]].Includes {
+			if x < 0 || x >= len(p.Files) {
+				return nil
+			}
+			if _, ok := idx[x]; !ok {
+				idx[x] = len(order)
+				order = append(order, x)
+			}
+		}
+	}
+	if _, ok := idx[0]; ok {
+		return nil
+	}
+	full := cloneProgram(p)
+	q := &Program{}
+	for _, o := range order {
+		q.Files = append(q.Files, full.Files[o])
+	}
+	bad := false
+	fix := func(i int) int {
+		n, ok := idx[i]
+		if !ok {
+			bad = true
+		}
+		return n
+	}
+	for _, f := range q.Files {
+		for i := range f.Includes {
+			f.Includes[i] = fix(f.Includes[i])
+		}
+		for _, sv := range f.Services {
+			if sv.Extends != nil {
+				sv.Extends.File = fix(sv.Extends.File)
+			}
+		}
+	}
+	eachType(q, func(fi int, t *Type) {
+		if t.Kind == idlgen.Named && t.Named != nil {
+			t.Named.File = fix(t.Named.File)
+		}
+	})
+	if bad {
+		return nil
+	}
+	return q
+}
+
+// inlineTypedef replaces every use of typedef ti of file fi by its target type and drops the typedef. The target is
+// only inlined into files that can name it (same file, or the target is a base/container of base types, or the
+// using file includes the file of the named target).
+func inlineTypedef(p *Program, fi, ti int) *Program {
+	q := cloneProgram(p)
+	td := q.Files[fi].Typedefs[ti]
+	ok := true
+	var subst func(use int, t *Type) *Type
+	subst = func(use int, t *Type) *Type {
+		if t == nil {
+			return nil
+		}
+		if t.Kind == idlgen.Named && t.Named != nil && t.Named.File == fi && t.Named.Name == td.Name {
+			r := cloneType(td.Type)
+			if typeHas(q, r, func(x *Type) bool {
+				return x.Kind == idlgen.Named && x.Named.File != use && !includes(q, use, x.Named.File)
+			}) {
+				ok = false
+			}
+			return r
+		}
+		t.Elem, t.Key = subst(use, t.Elem), subst(use, t.Key)
+		return t
+	}
+	for use, f := range q.Files {
+		for _, t := range f.Typedefs {
+			if t != td {
+				t.Type = subst(use, t.Type)
+			}
+		}
+		for _, s := range f.Structs {
+			for _, fd := range s.Fields {
+				fd.Type = subst(use, fd.Type)
+			}
+		}
+		for _, c := range f.Consts {
+			c.Type = subst(use, c.Type)
+		}
+		for _, sv := range f.Services {
+			for _, m := range sv.Functions {
+				m.Ret = subst(use, m.Ret)
+				for _, fd := range m.Args {
+					fd.Type = subst(use, fd.Type)
+				}
+				for _, fd := range m.Throws {
+					fd.Type = subst(use, fd.Type)
+				}
+			}
+		}
+	}
+	if !ok {
+		return nil
+	}
+	for oi, d := range q.Files[fi].Order {
+		if d.Kind == 't' && d.Idx == ti {
+			return removeDef(q, fi, oi)
+		}
+	}
+	return nil
+}
+
 // removeDef drops the definition at position oi of File.Order.
 func removeDef(p *Program, fi, oi int) *Program {
 	q := cloneProgram(p)
@@ -281,10 +394,38 @@ func (sh *shrinker) run(s *subject) *subject {
 				i++
 			}
 		}
-		if cur.Recurse {
+		if cur.Backend == "fastgo" {
 			c := cur.clone()
-			c.Recurse = false // without -r a program is generated file by file (rawUnit.mains)
+			c.Backend = "go"
 			accept(c)
+		}
+		if !cur.Recurse {
+			c := cur.clone()
+			c.Recurse = true // one command instead of one per file
+			accept(c)
+		}
+		// ---- re-root: a file other than the main one, with what it includes, as the whole program
+		for k := 1; k < len(cur.Prog.Files); k++ {
+			if q := reroot(cur.Prog, k); q != nil && len(q.Files) < len(cur.Prog.Files) {
+				c := cur.clone()
+				c.Prog = q
+				if accept(c) {
+					break
+				}
+			}
+		}
+		// ---- typedefs: use the target type directly
+		for fi := range cur.Prog.Files {
+			for ti := len(cur.Prog.Files[fi].Typedefs) - 1; ti >= 0; ti-- {
+				if ti >= len(cur.Prog.Files[fi].Typedefs) {
+					continue
+				}
+				if q := inlineTypedef(cur.Prog, fi, ti); q != nil {
+					c := cur.clone()
+					c.Prog = q
+					accept(c)
+				}
+			}
 		}
 		// ---- files
 		for k := len(cur.Prog.Files) - 1; k >= 1; k-- {
